@@ -92,11 +92,13 @@ PROPS = {
         ],
     },
     "C19": {
-        "lean_modules": ["TableauVerif.Props.C19"],
-        "oracles": ["c19.origin", "c19.yaml"],
+        "lean_modules": ["TableauVerif.Props.C19", "TableauVerif.Props.C20Emit"],
+        "oracles": ["c19.origin", "c19.yaml", "c20.emitts"],
         "streams": [
             ("e2e.C19.origin", 240, 12000, 8),
             ("e2e.C19.yaml", 200, 8000, 8),
+            # what the generated JSON says for a Timestamp (EmitTimezones) must be the instant the origin cell states, nanoseconds included
+            ("corr.store.emitTimestamp", 6000, 200000),
         ],
         "assumptions": [
             "regenerated tie: Generated/CallSites.lean (the call sites of ParseMessage, GetMergerImporters, GetScatterImporters, RewriteSubdir, importer.New, append and the SheetInfo literals in confgen's conversion path and in load.loadOrigin) is extracted from /repo on every run and pinned by pin_callsites",
@@ -105,12 +107,15 @@ PROPS = {
         ],
     },
     "C02": {
-        "lean_modules": ["TableauVerif.Props.C02", "TableauVerif.Props.C02Flat", "TableauVerif.Props.C07Header"],
-        "oracles": ["c02.closure", "c02.known", "c14.merge"],
+        "lean_modules": ["TableauVerif.Props.C02", "TableauVerif.Props.C02Flat", "TableauVerif.Props.C02Found", "TableauVerif.Props.C07Header"],
+        "oracles": ["c02.closure", "c02.known", "c14.merge", "c09.doc"],
         "streams": [
             ("e2e.C02.closure", 400, 20000, 8),
             # protogen and confgen must resolve the same header rows and lines (every option's presence varied independently)
             ("corr.parseroptions.mergeHeader", 3000, 200000),
+            # document workbooks (YAML / XML): the generated protos compile with their imports (predefined types of other files
+            # as map values, list elements, struct fields) and confgen converts every accepted document
+            ("e2e.C09.documents", 200, 8000),
             ("corr.protogen.parseHeader", 3000, 100000),
             ("corr.types.misc", 6000, 100000),
         ],
@@ -186,7 +191,7 @@ PROPS = {
     },
     "C06": {
         "lean_modules": ["TableauVerif.Props.C06", "TableauVerif.Props.C06Range"],
-        "oracles": ["c06.rt", "c06.cell"],
+        "oracles": ["c06.rt", "c06.cell", "c20.emitts"],
         "streams": [
             ("e2e.C06.formats", 3000, 100000),
             # cells at the edges of the Timestamp range: the three files of a worksheet are written together or not at all
@@ -237,10 +242,12 @@ PROPS = {
     },
     "C11": {
         "lean_modules": ["TableauVerif.Props.C11", "TableauVerif.Props.C11Union"],
-        "oracles": ["c11.merge", "c11.spec"],
+        "oracles": ["c11.merge", "c11.spec", "c11.docscatter"],
         "streams": [
             ("e2e.C11.merge", 400, 20000, 8),
             ("e2e.C11.specifiers", 300, 12000),
+            # Scatter on YAML / XML books: one file <Book>_<Sheet> per matched book, with that book's entries
+            ("e2e.C11.docScatter", 200, 8000),
         ],
         "assumptions": [
             "the merge stream runs the REAL GenProto+GenConf on generated CSV books (rows partitioned over 1..4 books, glob merger) under EVERY completion order of the per-book goroutines, imposed through the verif yield hook in ParseMessage",
@@ -250,8 +257,8 @@ PROPS = {
         ],
     },
     "C01": {
-        "lean_modules": ["TableauVerif.Props.C01", "TableauVerif.Props.C01List", "TableauVerif.Props.C01Sheet", "TableauVerif.Props.C01Grid", "TableauVerif.Props.C01Csv", "TableauVerif.Props.C09Incell"],
-        "oracles": ["c01.rt", "imp.grid", "c03.parse", "c10.schema"],
+        "lean_modules": ["TableauVerif.Props.C01", "TableauVerif.Props.C01List", "TableauVerif.Props.C01Sheet", "TableauVerif.Props.C01VList", "TableauVerif.Props.C01HList", "TableauVerif.Props.C01Grid", "TableauVerif.Props.C01Csv", "TableauVerif.Props.C09Incell"],
+        "oracles": ["c01.rt", "imp.grid", "c03.parse", "c10.schema", "c14.e2e"],
         "streams": [
             ("e2e.C01.roundtrip", 8000, 300000),
             # the scalar layer on arbitrary cell texts: the value stored for a cell is the one its text states
@@ -262,6 +269,9 @@ PROPS = {
             # whole sheets through the real importers and both generators, plain and transposed, CSV and XLSX, wider
             # than the importers' schema window: every field of the sheet is in the schema and in the conf
             ("e2e.C10.schema", 150, 6000),
+            # in-cell aggregates written with separators set at any ONE level (field-level sep without subsep and the other
+            # way round included): the cells must be split where the sheet's own separators stand
+            ("e2e.C14", 200, 8000),
         ],
         "assumptions": [
             "the specification of 'what a sheet states' is the Lean writer Spec.C01.write (type-DSL layout rules); generated (schema, message) cases are written by it and converted by the REAL table parser (in-memory rows through the verif hook)",
@@ -286,12 +296,14 @@ PROPS = {
     },
     "C05": {
         "lean_modules": ["TableauVerif.Props.C05", "TableauVerif.Props.C16Pools", "TableauVerif.Props.C05Loops"],
-        "oracles": ["c05.typeinfos", "c05.gen", "c13.dry", "c11.merge", "c04.det", "c17.fuzz", "c17.cross", "c04.alias"],
+        "oracles": ["c05.typeinfos", "c05.gen", "c13.dry", "c11.merge", "c04.det", "c17.fuzz", "c17.cross", "c04.alias", "c05.docs"],
         "streams": [
             ("replay.C05.typeinfos", 2, 12, 1),
             # termination of whole conversions on arbitrary workbooks (watchdog; D47: cross:-1 on an optional sheet)
             ("e2e.C17.nopanic", 160, 4000),
             ("e2e.C05", 24, 400, 4),
+            # document workbooks converted concurrently, one of them failing three structs deep: every run returns, with the same text
+            ("e2e.C05.documents", 6, 120, 2),
             # the per-overlay goroutines of a scattered sheet share nothing they write: previews are independent of each
             # other and of the schedule (a violation shows as differing previews or as a crash of the worker)
             ("e2e.C13.dryrun", 30, 1000),
@@ -301,6 +313,7 @@ PROPS = {
         "race_streams": [
             ("replay.C05.typeinfos", 2, 8, 1),
             ("e2e.C05", 12, 200, 4),
+            ("e2e.C05.documents", 4, 60, 2),
             ("e2e.C13.dryrun", 12, 300, 4),
             ("e2e.C11.merge", 16, 400, 4),
             ("e2e.C04.determinism", 8, 100, 4),
@@ -314,13 +327,16 @@ PROPS = {
         ],
     },
     "C20": {
-        "lean_modules": ["TableauVerif.Props.C20", "TableauVerif.Props.C20Civil", "TableauVerif.Props.C20Dur", "TableauVerif.Props.C20Days", "TableauVerif.Props.C06Range"],
-        "oracles": ["c20.ts", "c20.gen", "c20.dur", "c20.emitz"],
+        "lean_modules": ["TableauVerif.Props.C20", "TableauVerif.Props.C20Civil", "TableauVerif.Props.C20Dur", "TableauVerif.Props.C20Days", "TableauVerif.Props.C06Range", "TableauVerif.Props.C20Emit"],
+        "oracles": ["c20.ts", "c20.gen", "c20.dur", "c20.emitz", "c20.emitts", "c19.origin"],
         "streams": [
             ("corr.xproto.parseTime", 20000, 600000),
             ("corr.xproto.duration", 20000, 400000),
             ("e2e.C20.location", 300, 12000),
             ("corr.store.emitTimestamp", 20000, 600000),
+            # the loader's own location option on origin workbooks (empty name = UTC, whatever the machine's zone is): the
+            # message loaded from the origin equals the one loaded from the conf generated under the same location
+            ("e2e.C19.origin", 120, 6000, 8),
         ],
         "assumptions": [
             "e2e.C20.location runs the real GenProto + GenConf with LocationName \"\" / \"Local\" / a zone name while the worker's machine zone (time.Local) is set to UTC, Kolkata, New_York or Lord_Howe; the reading of the option (\"\" = UTC, Local = machine zone) is the generator's, taken from the property text",
@@ -331,7 +347,7 @@ PROPS = {
     },
     "C12": {
         "lean_modules": ["TableauVerif.Props.C12", "TableauVerif.Props.C12Contig", "TableauVerif.Props.C12Seq"],
-        "oracles": ["c12.range", "c12.contig", "c01.rt", "c12.refer", "doc.parse", "c12.seq"],
+        "oracles": ["c12.range", "c12.contig", "c01.rt", "c12.refer", "doc.parse", "c12.seq", "c12.redecl"],
         "streams": [
             ("corr.fieldprop.range", 12000, 400000),
             ("e2e.C12.contiguity", 1200, 60000),
@@ -341,6 +357,8 @@ PROPS = {
             ("e2e.C01.roundtrip", 4000, 150000),
             ("e2e.C12.refer", 300, 12000),
             ("e2e.C12.sequence", 300, 12000),
+            # one nested type name declared by two columns with the same or with different sub-field constraints
+            ("e2e.C12.redeclared", 200, 8000),
             # uniqueness in documents: the document parser model (incl. E2005 on map nodes and keyed lists) against
             # the real one; o.doc.parse judges the clear case (a unique map stating one key text twice)
             ("corr.confgen.docParse", 6000, 200000),
@@ -352,13 +370,15 @@ PROPS = {
     },
     "C13": {
         "lean_modules": ["TableauVerif.Props.C13"],
-        "oracles": ["c13.patch", "c13.load", "c13.dry", "c13.tbl"],
+        "oracles": ["c13.patch", "c13.load", "c13.dry", "c13.tbl", "c13.ydoc"],
         "streams": [
             ("corr.xproto.patch", 6000, 300000),
             ("e2e.C13.load", 3000, 100000),
             ("e2e.C13.dryrun", 40, 1500),
             # table worksheets: PATCH_REPLACE marks of scalar and struct list columns through GenProto, dry run and loader
             ("e2e.C13.table", 200, 8000),
+            # document worksheets (YAML): an overlay entry replaces main's entry of its key whatever its value is ("" included)
+            ("e2e.C13.docPatch", 200, 8000),
         ],
         "assumptions": [
             "modelled: xproto.PatchMessage/patchMessage/patchList/patchMap over message trees (populated fields only); unknown fields not modelled",
